@@ -10,7 +10,13 @@
 (c) reader layout   : the bit-field walk of ListProvider::node_label / public_suffix in MIR (shifts and masks over the
                       *named* unevaluated `T::*_BITS_*` constants) equals the writer's layout; effective_tld_plus_one
                       rejects empty labels before the lookup and guards its length arithmetic.
-Not decided: that the walk implements the PSL algorithm for every domain string.
+(d) walk step      : the transition table of ONE iteration of the lookup loop is read off the MIR (every decision path from the
+                      loop head to the back edge or to the post-loop join, state expressed over loop-entry values) and compared,
+                      row by row, with the PSL matching step: a wildcard inherited from the parent matches the current label
+                      whether or not it has its own node; a normal node sets the suffix at the current label; an exception node
+                      ends the walk one label further in; otherwise the suffix is unchanged; descent uses the node's children
+                      range and wildcard bit and the remaining prefix; the implicit "*" rule applies when nothing matched.
+Not decided: the induction over label sequences (that iterating this step over all inputs equals the PSL algorithm).
 """
 import json
 import os
@@ -383,8 +389,148 @@ def run(chk):
             need = {("starts_with", 46), ("ends_with", 46), ("contains", "..")}
             chk.ob("(c) reader layout", "c|etld|empty-labels-rejected-before-lookup", need <= pats, where(et, cb),
                    "lookup is conditioned on the false edges of %s" % sorted(map(str, pats)))
+    walk_step_rules(chk, p, ps)
+    chk.floor("(d)", 9)
     chk.floor("(a)", 3)
     chk.floor("(b)", 13)
     chk.floor("(c)", 16)
     chk.rule_text = "obligations: one per well-formedness fact, per layout field, and one trie comparison covering every node of the compiled table and every rule of the .dat (counted in disagreements_checked)"
     chk.assumptions = ["x/net/idna ToASCII of the generator = per-label punycode (no mapping)", "the walk itself (wildcard/exception/implicit * handling) is not decided"]
+
+
+def _has(t, pred):
+    return flow.term_contains(t, pred)
+
+
+def _isc(x, pat):
+    return isinstance(x, tuple) and len(x) == 4 and x[0] == "call" and isinstance(x[1], str) and names.is_(x[1], pat)
+
+
+def walk_step_rules(chk, p, ps):
+    R = "(d) walk step"
+    if ps is None:
+        chk.ob(R, "d|public_suffix", False, CR, "anchor-missing: ListProvider::public_suffix")
+        return
+    L = flow.loops(ps)
+    if not chk.require(R, "d|loop", len(L) == 1, where(ps), "expected exactly one loop in public_suffix, found %d" % len(L)):
+        return
+    head = list(L)[0]
+    blocks = L[head]
+    # state locals, identified by what they hold (never by name)
+    cand = [i for i in range(ps.arg_count + 1, len(ps.locals))]
+    rows0 = flow.loop_steps(p, ps, head, blocks, cand)
+    if not chk.require(R, "d|rows", rows0 and all(r["conds"] is not None for r in rows0), where(ps), "loop step table could not be enumerated"):
+        return
+    cont = [r for r in rows0 if r["kind"] == "continue"]
+    exits = [r for r in rows0 if r["kind"] == "exit"]
+    cn = lambda nm: (lambda x: isinstance(x, tuple) and len(x) == 2 and x[0] == "const" and isinstance(x[1], str) and x[1].endswith("::" + nm))
+
+    def find_local(pred):
+        out = [l for l in cand if cont and all(pred(r["state"][l], l) for r in cont)]
+        return out[0] if len(out) == 1 else None
+
+    tested = {t[1] for r in rows0 for t, l, sb in r["conds"] if isinstance(t, tuple) and len(t) == 2 and t[0] == "in"}
+    wl = find_local(lambda t, l: ps.local_ty(l) == "bool" and l in tested and _has(t, cn("CHILDREN_BITS_WILDCARD")))
+    s_l = find_local(lambda t, l: ps.local_ty(l) == "&str" and _isc(t, "Index::index") and t[2][0] == ("in", l))
+    lo = find_local(lambda t, l: ps.local_ty(l) == "u32" and t[0] == "binop" and t[1] == "BitAnd" and _has(t, cn("CHILDREN_BITS_LO")) and not _has(t, cn("CHILDREN_BITS_HI")))
+    hi = find_local(lambda t, l: ps.local_ty(l) == "u32" and t[0] == "binop" and t[1] == "BitAnd" and _has(t, cn("CHILDREN_BITS_HI")) and not _has(t, cn("CHILDREN_BITS_NODE_TYPE")))
+    from .common import place_reads, term_reads
+    after = set()
+    post_blocks = ps.reachable([r["end"] for r in rows0 if r["kind"] == "exit"][:1], follow_yield_drop=False) - blocks
+    for bb in post_blocks:
+        for st in ps.blocks[bb]["stmts"]:
+            if st["k"] == "assign":
+                after |= {pj["l"] for pj in place_reads(st["rv"])}
+        after |= {pj["l"] for pj in term_reads(ps.blocks[bb]["term"])}
+    sfx = [l for l in cand if ps.local_ty(l).startswith("core::ops::range::RangeFrom<usize>") and l in after and any(r["state"][l] != ("in", l) for r in rows0)]
+    sfx = sfx[0] if len(sfx) == 1 else None
+    if not chk.require(R, "d|state", None not in (wl, s_l, lo, hi, sfx), where(ps), "state variables not identified (wildcard=%s s=%s lo=%s hi=%s suffix=%s)" % (wl, s_l, lo, hi, sfx)):
+        return
+    IN = lambda l: ("in", l)
+    dot = lambda t: _isc(t, "str::rfind") and t[2][0] == IN(s_l) and t[2][1] == ("const", 46)
+    at_label = lambda t: _isc(t, "after_or_all") and dot(t[2][0])
+    one_further = lambda t: isinstance(t, tuple) and t and t[0] == "agg" and t[1].endswith("RangeFrom") and _has(t, lambda x: _isc(x, "str::len") and x[2][0] == IN(s_l)) and _has(t, lambda x: x == ("const", 1))
+    nt_term = lambda t: isinstance(t, tuple) and t and t[0] == "binop" and t[1] == "Eq" and _has(t, cn("CHILDREN_BITS_NODE_TYPE"))
+    is_normal = lambda t: nt_term(t) and _has(t, cn("NODE_TYPE_NORMAL"))
+    is_exc = lambda t: nt_term(t) and _has(t, cn("NODE_TYPE_EXCEPTION"))
+
+    def classify(r):
+        d = {"wild": None, "empty": None, "found": None, "normal": None, "exc": None, "dot": None}
+        for t, l, sb in r["conds"]:
+            if t == IN(wl):
+                d["wild"] = flow.lab_true(l)
+            elif t[0] == "binop" and t[1] == "Eq" and set(t[2:4]) == {IN(lo), IN(hi)}:
+                d["empty"] = flow.lab_true(l)
+            elif t[0] == "discr" and _isc(t[1], "ListProvider::find"):
+                d["found"] = l == ("in", "1")
+                f = t[1]
+                d["find_args_ok"] = len(f[2]) == 4 and _isc(f[2][1], "Index::index") and f[2][1][2][0] == IN(s_l) and at_label(f[2][1][2][1]) and f[2][2] == IN(lo) and f[2][3] == IN(hi)
+            elif is_normal(t):
+                d["normal"] = flow.lab_true(l)
+            elif is_exc(t):
+                d["exc"] = flow.lab_true(l)
+            elif t[0] == "discr" and dot(t[1]):
+                d["dot"] = l == ("in", "1")
+        return d
+
+    bad = {k: [] for k in ("d1", "d2", "d3", "d4", "d5", "d6", "d7")}
+    for r in rows0:
+        c = classify(r)
+        sv = r["state"][sfx]
+        desc = "%s row %s -> suffix' = %s" % (r["kind"], {k: v for k, v in c.items() if v is not None and k != "find_args_ok"}, flow.term_str(sv)[:70])
+        if c["wild"] is None:
+            bad["d1"].append(desc)
+        matched_here = c["found"] and (c["normal"] or c["exc"])
+        if c["exc"] and c["found"] and not c["normal"]:
+            if not (r["kind"] == "exit" and one_further(sv)):
+                bad["d4"].append(desc)
+        elif c["normal"] and c["found"]:
+            if not at_label(sv):
+                bad["d3"].append(desc)
+        elif c["wild"]:
+            if not at_label(sv):
+                bad["d2"].append(desc)
+        else:
+            if sv != IN(sfx):
+                bad["d6"].append(desc)
+        if r["kind"] == "continue":
+            ok = c["empty"] is False and c["found"] and c.get("find_args_ok") and c["dot"] and not (c["exc"] and not c["normal"])
+            st = r["state"]
+            ok = ok and _isc(st[s_l], "Index::index") and st[s_l][2][0] == IN(s_l) and _has(st[s_l][2][1], lambda x: isinstance(x, tuple) and len(x) == 3 and x[0] == "field" and x[2] == "0" and x[1][0] == "field" and dot(x[1][1]))
+            ok = ok and _has(st[lo], cn("CHILDREN")) and _has(st[hi], cn("CHILDREN")) and _has(st[wl], cn("CHILDREN")) and _has(st[lo], lambda x: _isc(x, "ListProvider::find") or x == ("field", ("field", ("call",), ""), "")) is not None
+            if not ok:
+                bad["d5"].append(desc)
+        else:
+            # exits: empty range / label not found / exception / no more labels
+            reason = c["empty"] is True or c["found"] is False or (c["exc"] and not c["normal"]) or c["dot"] is False
+            if not reason:
+                bad["d7"].append(desc)
+    site = where(ps)
+    n = len(rows0)
+    chk.extra["walk_step_rows"] = n
+    chk.ob(R, "d|wildcard-consulted-on-every-path", not bad["d1"], site, bad["d1"][0] if bad["d1"] else "all %d rows branch on the wildcard flag inherited from the parent node" % n)
+    chk.ob(R, "d|wildcard-matches-any-label", not bad["d2"], site, ("a label under a wildcard parent does not set the suffix: " + bad["d2"][0]) if bad["d2"] else "rows with the inherited wildcard set put the suffix at the current label (also when the label has its own node)")
+    chk.ob(R, "d|normal-node-sets-suffix", not bad["d3"], site, bad["d3"][0] if bad["d3"] else "rows on a normal node put the suffix at the current label")
+    chk.ob(R, "d|exception-node-ends-one-label-further", not bad["d4"], site, bad["d4"][0] if bad["d4"] else "rows on an exception node leave the loop with suffix = 1 + len(s)..")
+    chk.ob(R, "d|descent", not bad["d5"] and len(cont) >= 2, site, bad["d5"][0] if bad["d5"] else "%d continue rows: label found in [lo,hi), children range / wildcard bit decoded from CHILDREN, s := s[..dot]" % len(cont))
+    chk.ob(R, "d|otherwise-unchanged", not bad["d6"], site, bad["d6"][0] if bad["d6"] else "rows with neither inherited wildcard nor a matching node keep the suffix")
+    chk.ob(R, "d|exits", not bad["d7"] and len(exits) >= 4, site, bad["d7"][0] if bad["d7"] else "%d exit rows: empty range, label not found, exception node, no more labels" % len(exits))
+    # initial state and the implicit "*" rule
+    T = flow.Terms(p, ps)
+    pre = [b for b in ps.preds().get(head, []) if b not in blocks]
+    if chk.require(R, "d|preheader", len(pre) == 1, site, "loop preheader not unique"):
+        pb = pre[0]
+        init = {l: flow.simplify_term(T.place(l, (), pb, "t")) for l in (lo, hi, s_l, sfx, wl)}
+        ok = init[lo] == ("const", 0) and cn("NUM_TLD")(init[hi]) and init[s_l] == ("param", 2) and init[wl] == ("const", 0) and init[sfx][0] == "agg" and _has(init[sfx], lambda x: _isc(x, "str::len") and x[2][0] == ("param", 2))
+        chk.ob(R, "d|initial-state", ok, where(ps, pb), "lo=%s hi=%s s=%s wildcard=%s suffix=%s" % tuple(flow.term_str(init[k])[:40] for k in (lo, hi, s_l, wl, sfx)))
+    # after the loop: suffix.start == len(domain)  =>  suffix = after_or_all(rfind(domain, '.'))
+    star = False
+    for bb, t in ps.calls():
+        if names.call_is(t, "after_or_all") and bb not in blocks:
+            a = flow.simplify_term(T.operand(t["args"][0], bb, "t"))
+            if _isc(a, "str::rfind") and a[2][0] == ("param", 2) and a[2][1] == ("const", 46):
+                conds = flow.conditions(p, ps, bb, T)
+                for sb, l, c in conds:
+                    if c[0] == "binop" and c[1] == "Eq" and _has(c, lambda x: _isc(x, "str::len") and x[2][0] == ("param", 2)) and _has(c, lambda x: isinstance(x, tuple) and len(x) == 3 and x[0] == "field" and x[2] == "start") and flow.lab_true(l):
+                        star = True
+    chk.ob(R, "d|implicit-star-rule", star, site, "when no rule matched (suffix.start == len(domain)) the suffix becomes the last label: %s" % star)
